@@ -21,7 +21,7 @@ calls `stepInside`), which is how the stream reaches `./check C17`.
 Oracle (C17, outbound direction; classes `c17-out-…`): computed from the certificates, the rule list and the
 tracked flows of the spec state — nothing is sent for a packet that does not parse, to one of our own addresses, with
 a source that is not ours, to a destination the tunnel's peer is not certified for, on a tunnel routing would not
-choose, or that no rule / tracked flow allows; a packet is cached only on the pending handshake of the destination or
+choose, or that no rule / tracked flow allows (checked when the routine-local conntrack cache is off); a packet is cached only on the pending handshake of the destination or
 of a gateway of its route; a reject reply is written only when configured and never together with a send.
 Core Lean only.
 -/
@@ -159,7 +159,10 @@ def oracle (s : St) (c : Case) (pkt : Option Packet) (impl : String) : String :=
             if !Spec.Fw.localAddrOK s.my p.localAddr then some "c17-out-local-addr-not-own"
             else if !Spec.Fw.remoteOK s.my pc dst then some "c17-out-remote-addr-not-certified"
             else if !via.any (certHas pc) then some "c17-out-sent-on-wrong-tunnel"
-            else if !((findFlow s.flows p).isSome || Spec.Fw.allow s.cfg s.rules p false { cert := pc, pool := s.pool }) then
+            -- (the spec state does not follow the routine-local conntrack cache, which outlives `clear`: the rule
+            -- clause only speaks when that cache is off)
+            else if s.cachePeriod == 0 &&
+                !((findFlow s.flows p).isSome || Spec.Fw.allow s.cfg s.rules p false { cert := pc, pool := s.pool }) then
               some "c17-out-sent-firewall-denied"
             else if flag != "ok" then some "c17-out-payload-altered"
             else none)
